@@ -17,12 +17,14 @@ Definition new_like (vorder : list nat) (s : st) : res st :=
   end.
 
 (** [__copy__]: the node tables, counts, free index and roots are copied; the
-    computed table starts empty and dynamic reordering is off in the copy *)
+    computed table starts empty and dynamic reordering is off in the copy;
+    [max_nodes] is copied *)
 Definition copy_manager (vorder : list nat) (s : st) : res st :=
   match new_like vorder s with
   | Err e => Err e
   | Ok b => Ok (b <| Base.pred := Base.pred s |> <| Base.succ := Base.succ s |> <| refc := refc s |>
-                  <| min_free := min_free s |> <| roots := roots s |>)
+                  <| min_free := min_free s |> <| roots := roots s |>
+                  <| max_nodes := max_nodes s |>)
   end.
 
 (** one node of [reduction]: [umap] maps old nodes to references of [b] *)
